@@ -130,7 +130,11 @@ def run_history(args):
         err = "harness did not terminate within 90 s (hang)"
     with open(tp, "w") as f:
         f.write(out)
-    lines = [l for l in out.splitlines() if " | " in l or l.startswith("#")]
+    raw = [l for l in out.splitlines() if " | " in l or l.startswith("#")]
+    lines = [l for l in raw if l.startswith("#") or (" e=" in l and " n=" in l and " err=" in l and " done=" in l and len(l.rsplit("done=", 1)[1]) == 64)]
+    if len(lines) != len(raw):
+        crashed = True      # the harness died in the middle of a line
+        err = (err or "") + " (trace truncated)"
     class P: pass
     p = P(); p.stderr = err
     with open(tp, "w") as f:
@@ -152,10 +156,13 @@ def shrink(ops, arch, flags, k2, drv, workdir, pred):
     cur = ops
     n = 2
     idx = 900000
-    while len(cur) >= 2:
+    t_end = time.time() + 60      # shrinking is a convenience: bounded budget
+    while len(cur) >= 2 and time.time() < t_end:
         chunk = max(1, len(cur) // n)
         reduced = False
         for i in range(0, len(cur), chunk):
+            if time.time() > t_end:
+                break
             cand = cur[:i] + cur[i + chunk:]
             idx += 1
             r = run_history((idx, cand, arch, flags, k2, drv, workdir))
@@ -245,7 +252,7 @@ def main(tier, seed):
     prop_fail = [r for r in results if r["oracle"] or r["crashed"]]
     corr_fail = [r for r in results if r["nmism"] and not (r["oracle"] or r["crashed"])]
     reported = False
-    for r in prop_fail[:3]:
+    for r in prop_fail[:2]:
         pred = lambda x: bool(x["oracle"]) or x["crashed"]
         ops = shrink(r["ops"], r["arch"], r["flags"], k2, drv, workdir, pred) if len(r["ops"]) < 4000 else r["ops"]
         rr = run_history((990000 + r["idx"], ops, r["arch"], r["flags"], k2, drv, workdir))
